@@ -61,5 +61,23 @@ theorem run_ok (t : PktType) : ∀ fuel bs acc, bs.length < fuel →
       rw [he]
       exact ⟨fun s h => (by cases h), fun h => (by cases h), fun fr e' h => (by cases h; exact hne)⟩
 
+/-- the loop only ever adds to the frames already dispatched -/
+theorem run_ok_len (t : PktType) : ∀ fuel bs acc fs, readPlainRun fuel t bs acc = .ok fs → acc.length ≤ fs.length := by
+  intro fuel
+  induction fuel with
+  | zero => intro bs acc fs h; simp [readPlainRun] at h
+  | succ fuel ih =>
+    intro bs acc fs h
+    unfold readPlainRun at h
+    cases hn : FrameReader.next t bs with
+    | eof => rw [hn] at h; simp only [PlainOut.ok.injEq] at h; subst h; simp
+    | panic s => rw [hn] at h; cases h
+    | frame f rest =>
+      rw [hn] at h
+      have := ih rest (f :: acc) fs h
+      simp only [List.length_cons] at this; omega
+    | err k =>
+      rw [hn] at h
+      cases hk : ferrOf k <;> simp [hk] at h
 
 end GmQuic.FrameRd
